@@ -151,6 +151,36 @@ func init() {
 	}
 }
 
+// texts without any rule, and valid rules whose parse trees are long or deep
+func init() {
+	c17Targeted = append(c17Targeted, "", " \n\t ", "// only a comment", "/* only a comment */\n", "// c\n/* d */ // e")
+	chain := func(n int, op, term string) string {
+		var b strings.Builder
+		for i := 0; i < n; i++ {
+			if i > 0 {
+				b.WriteString(" " + op + " ")
+			}
+			fmt.Fprintf(&b, term, i)
+		}
+		return b.String()
+	}
+	for _, n := range []int{40, 70, 130} {
+		c17Targeted = append(c17Targeted,
+			`rule Wide "or chain" { when `+chain(n, "||", "F.A == %d")+` then F.A = 1; } rule After "must survive" salience 3 { when true then F.B = 2; }`,
+			`rule Wide "sum" { when `+chain(n, "+", "%d")+` > F.A then F.A = `+chain(n, "+", "%d")+`; } rule After "must survive" { when true then F.B = 2; }`)
+	}
+	for _, d := range []int{20, 33, 48} {
+		var open, close strings.Builder
+		for i := 0; i < d; i++ {
+			fmt.Fprintf(&open, "F.A >= %d && (", i)
+			close.WriteString(")")
+		}
+		c17Targeted = append(c17Targeted,
+			`rule Deep "nested" { when `+open.String()+`F.T`+close.String()+` then F.A = 1; } rule After "must survive" { when true then F.B = 2; }`,
+			`rule Deep "nested sum" { when true then F.A = `+strings.Repeat("(1 + ", d)+`1`+strings.Repeat(")", d)+`; } rule After "must survive" { when true then F.B = 2; }`)
+	}
+}
+
 var c17Targeted = []string{
 	`rule when "d" { when true then F.A = 1; }`,
 	`rule R "d" { when then F.A = 1; }`,
